@@ -78,7 +78,8 @@ def _str_leaf(s, opts, ren, is_name):
 
     s = _BLOCKNAME.sub(sub, s)
     if opts.fold_all or (is_name and opts.fold_names):
-        if not s.startswith("block:#"):
+        # character literal text (quotes included) is never folded
+        if not s.startswith("block:#") and s[:1] not in ("'", '"'):
             s = s.lower()
     return s
 
